@@ -65,9 +65,14 @@ def timedops(n):
 
 
 C19INV = ['AtMostOneTerminal', 'NothingStartedAfterTerminal', 'ExactlyOneAtTheEnd']
+
+
+def sinkind(n):
+    return ('SinkInd', 'apalache', n)
+
 CONC = {
     # property: (monitor flags of ConcProps.Judge, design-level models quick, thorough)
-    'C19': (['C19'], [sinkconc(2, 2, C19INV), sinkconc(2, 1, C19INV, fin=True)], [sinkconc(2, 2, C19INV), sinkconc(3, 1, C19INV), sinkconc(2, 3, C19INV), sinkconc(2, 2, C19INV, fin=True)]),
+    'C19': (['C19'], [sinkconc(2, 2, C19INV), sinkconc(2, 1, C19INV, fin=True), sinkind(3)], [sinkconc(2, 2, C19INV), sinkconc(3, 1, C19INV), sinkconc(2, 3, C19INV), sinkconc(2, 2, C19INV, fin=True), sinkind(5)]),
     'C11': (['C11', 'C19'], [sinkconc(2, 2, ['AtMostOneTerminal']), combconc(3, 1, False), combconc(3, 2, True)],
             [sinkconc(3, 1, ['AtMostOneTerminal']), combconc(3, 2, False), combconc(4, 1, False), combconc(3, 3, True)]),
     'C07': (['C07'], [schedqueue(2, 2, '{11}', 'deadlock_2x2')], [schedqueue(2, 3, '{11}', 'deadlock_2x3'), schedqueue(3, 1, '{11}', 'deadlock_3x1')]),
@@ -81,7 +86,7 @@ CONC = {
     'C14': (['C14'], [], []),
     'C12': (['C12'], [subjconc('plain', 3, False), subjconc('plain', 3, True), subjconc('replay', 3, False, 'NoDup (KF-C12-replay-latesub-duplicate)'), subjconc('behavior', 3, False, 'NoDup (KF-C12-behavior-latesub-duplicate)')],
             [subjconc('plain', 4, False), subjconc('plain', 4, True), subjconc('replay', 4, False, 'NoDup (KF-C12-replay-latesub-duplicate)'), subjconc('behavior', 4, True, 'NoDup (KF-C12-behavior-latesub-duplicate)')]),
-    'C05': (['C05'], [sinkconc(2, 2, ['UnsubStops'])], [sinkconc(2, 3, ['UnsubStops']), sinkconc(3, 1, ['UnsubStops'])]),
+    'C05': (['C05'], [sinkconc(2, 2, ['UnsubStops']), sinkind(3)], [sinkconc(2, 3, ['UnsubStops']), sinkconc(3, 1, ['UnsubStops']), sinkind(5)]),
 }
 
 
